@@ -1,4 +1,5 @@
 import PikaVerif.Lemmas.Sched
+import PikaVerif.Lemmas.Sched2
 import PikaVerif.Props.C01
 /-!
 # C02 — no lost wake-up: a resumed task always runs again
@@ -16,9 +17,13 @@ the waker cannot leave before it has queued the task (`C02_wake_creates_token`,
 `C02_winner_must_queue`); a task that is pending always carries its token
 (`C01.C01_no_drop`), so it is popped and run again; and between a moment when the target was not
 pending and a later moment when it is observed pending a transition into pending has happened
-(`C02_observed_pending_implies_transition`).  A helper gives up only under the code's condition
-(`C02_helper_abort_condition`); that this condition implies "the target was pending in between"
-is argued in DESIGN.md (tags only grow), not proved here (partial).
+(`C02_observed_pending_implies_transition`).  With the ghost epochs of `Lemmas/Sched2.lean`
+(epoch = number of transitions into pending) the endings are proved *effective*:
+`C02_noop_effective` / `C02_done_effective` (when a request ends, the target was pending at
+the moment it was issued, or has become pending since, or is terminated) and
+`C02_helper_abort_sound` (a helper that gives up because the target is active with a different tag
+has seen the target go through pending since the observation it was created from).  The one
+unclaimed corner: a helper aborts also when only `state_ex` differs (same tag); see DESIGN.md.
 -/
 namespace PikaVerif.C02
 open PikaVerif PikaVerif.Sched
@@ -59,9 +64,9 @@ theorem C02_winner_can_queue (s : St) (hr : C01.Reachable s) (a o : Nat)
     and queue insertion. -/
 theorem C02_request_endings (s s' : St) (e : Ev) (a : Nat) (h : step s e = some s')
     (h1 : (s.act a).sts ≠ .out) (h2 : (s'.act a).sts = .out) :
-    ∃ o lw, (s.act a).sts = .loaded o lw ∧
+    ∃ o lw le, (s.act a).sts = .loaded o lw le ∧
       ((e = .stsNoop a o ∧ (lw.st = sPending ∨ lw.st = sTerminated)) ∨
-       (e = .stsHelper a o ∧ lw.st = sActive ∧ lw ∈ (s'.obj o).helpers) ∨
+       (e = .stsHelper a o ∧ lw.st = sActive ∧ (lw, le) ∈ (s'.obj o).helpers) ∨
        (e = .stsDone a o ∧ pendingish lw = true)) := by
   cases e <;> simp only [step] at h <;> (repeat' split at h) <;>
     first
@@ -72,6 +77,7 @@ theorem C02_request_endings (s s' : St) (e : Ev) (a : Nat) (h : step s e = some 
         | (exfalso; exact h1 h2)
         | (rename_i hc; subst hc; simp_all; done)
         | (rename_i hc; subst hc; simp_all [upd]; done)
+        | (rename_i hc; subst hc; simp_all [upd]; refine ⟨_, _, _, ⟨rfl, rfl, rfl⟩, ?_⟩; simp_all; done)
         | (rename_i hc; subst hc; simp_all [upd]; refine ⟨_, _, ⟨rfl, rfl⟩, ?_⟩; simp_all; done)
         | (simp_all; done))
 
@@ -89,25 +95,87 @@ theorem C02_observed_pending_implies_transition (seg : List Ev) (s1 s2 : St)
 
 /-- A noop return is only accepted on an exact observation of `pending` or `terminated`. -/
 theorem C02_noop_condition (s s' : St) (a o : Nat) (h : step s (.stsNoop a o) = some s') :
-    ∃ lw, (s.act a).sts = .loaded o lw ∧ (lw.st = sPending ∨ lw.st = sTerminated) := by
+    ∃ lw le, (s.act a).sts = .loaded o lw le ∧ (lw.st = sPending ∨ lw.st = sTerminated) := by
   simp only [step] at h
   split at h
-  · rename_i o' lw hs
+  · rename_i o' lw le hs
     split at h
-    · rename_i hg; exact ⟨lw, by rw [hs, hg.1], hg.2⟩
+    · rename_i hg; exact ⟨lw, le, by rw [hs, hg.1], hg.2⟩
     · simp at h
   · simp at h
 
 /-- A helper gives up exactly under the code's condition on the words it loaded / remembers. -/
 theorem C02_helper_abort_condition (s s' : St) (a o : Nat) (h : step s (.sasAbort a o) = some s') :
-    ∃ cur prev, (s.act a).sas = some (o, cur, prev) ∧ cur.st = prev.st ∧ cur ≠ prev := by
+    ∃ cur prev he ce, (s.act a).sas = some (o, cur, prev, he, ce) ∧ cur.st = prev.st ∧ cur ≠ prev := by
   simp only [step] at h
   split at h
-  · rename_i o' cur prev hs
+  · rename_i o' cur prev he ce hs
     split at h
-    · rename_i hg; exact ⟨cur, prev, by rw [hs, hg.1], hg.2.1, hg.2.2⟩
+    · rename_i hg; exact ⟨cur, prev, he, ce, by rw [hs, hg.1], hg.2.1, hg.2.2⟩
     · simp at h
   · simp at h
+
+
+/-- **A request that ends with "nothing to do" was effective.**  If `set_thread_state` returns
+    through the noop branch, the word it loaded was `terminated`, or the target was already
+    pending (or terminated) when the request was issued (`issue = none`), or the target has made
+    a transition into pending between the issue and that load (`ie < le`). -/
+theorem C02_noop_effective (s s' : St) (hr : C01.Reachable s) (a o : Nat)
+    (h : step s (.stsNoop a o) = some s') :
+    ∃ lw le, (s.act a).sts = .loaded o lw le ∧
+      (lw.st = sTerminated ∨ (s.act a).issue = none ∨ ∃ ie, (s.act a).issue = some ie ∧ ie < le) := by
+  obtain ⟨log, hlog⟩ := hr
+  have hi := inv2_of_accepted hlog
+  obtain ⟨lw, le, hst, hc⟩ := C02_noop_condition s s' a o h
+  refine ⟨lw, le, hst, ?_⟩
+  rcases hc with hp | ht
+  · cases hiss : (s.act a).issue with
+    | none => exact Or.inr (Or.inl rfl)
+    | some ie =>
+      have := (hi.issue a ie hiss).ld o lw le hst
+      exact Or.inr (Or.inr ⟨ie, rfl, this.2 (by simp [pendingish, hp])⟩)
+  · exact Or.inl ht
+
+/-- **A request that ends after its own exchange was effective** (same statement for the normal
+    return: the loaded word is the pending word the actor itself produced and queued). -/
+theorem C02_done_effective (s s' : St) (hr : C01.Reachable s) (a o : Nat)
+    (h : step s (.stsDone a o) = some s') :
+    ∃ lw le, (s.act a).sts = .loaded o lw le ∧ pendingish lw = true ∧
+      ((s.act a).issue = none ∨ ∃ ie, (s.act a).issue = some ie ∧ ie < le) := by
+  obtain ⟨log, hlog⟩ := hr
+  have hi := inv2_of_accepted hlog
+  simp only [step] at h
+  split at h
+  · rename_i o' lw le hs
+    split at h
+    · rename_i hg
+      obtain ⟨ho, hp⟩ := hg
+      subst ho
+      refine ⟨lw, le, hs, hp, ?_⟩
+      cases hiss : (s.act a).issue with
+      | none => exact Or.inl rfl
+      | some ie => exact Or.inr ⟨ie, rfl, ((hi.issue a ie hiss).ld o' lw le hs).2 hp⟩
+    · simp at h
+  · simp at h
+
+/-- **A helper that gives up on a tag change is sound.**  The helper was created from an exact
+    observation `prev` (active) made at epoch `he`; it loaded `cur` at epoch `ce`.  If it aborts
+    with `cur.tag ≠ prev.tag`, then `he < ce`: the target has made a transition into pending
+    (and hence was queued and run again, `C01_no_drop`) since that observation. -/
+theorem C02_helper_abort_sound (s s' : St) (hr : C01.Reachable s) (a o : Nat)
+    (h : step s (.sasAbort a o) = some s') :
+    ∃ cur prev he ce, (s.act a).sas = some (o, cur, prev, he, ce) ∧ prev.st = sActive ∧
+      cur.st = sActive ∧ (cur.tag ≠ prev.tag → he < ce) := by
+  obtain ⟨log, hlog⟩ := hr
+  have hi := inv2_of_accepted hlog
+  obtain ⟨cur, prev, he, ce, hs, hst, hne⟩ := C02_helper_abort_condition s s' a o h
+  have := hi.sas a o cur prev he ce hs
+  obtain ⟨hle, hpa, htag⟩ := this
+  refine ⟨cur, prev, he, ce, hs, hpa, by rw [hst]; exact hpa, ?_⟩
+  intro hdiff
+  by_cases heq : he = ce
+  · exact absurd (htag heq (by rw [hst]; exact hpa)) hdiff
+  · omega
 
 /-! ## Non-vacuity: a wake-up aimed at a suspended task, and one aimed at an active task -/
 
